@@ -202,10 +202,17 @@ def run_suite(suite, prop, cases, driver_ok, stats, known, search_only=False):
         if hasattr(suite, "impl_many"):
             results = suite.impl_many(cases)   # the suite parallelises over worker processes itself
         else:
+            n_timeouts = 0
             for c in cases:
+                if n_timeouts >= 8:
+                    # a non-terminating implementation: a handful of timed-out cases is the finding; do not spend
+                    # case_timeout seconds on each of thousands of further cases
+                    cases = cases[:len(results)]
+                    break
                 try:
                     r = _impl_timed(suite, c)
                 except CaseTimeout:
+                    n_timeouts += 1
                     r = {"timeout": True, "model": {"error": "timeout"}, "obs": {}}
                 except Exception as e:  # harness failure on this case = infrastructure problem
                     r = {"harness_exception": f"{type(e).__name__}: {e}", "tb": traceback.format_exc()[-800:]}
